@@ -6,6 +6,7 @@
 #include <stddef.h>
 
 /* --- ghost variables (exist only in proof builds) --- */
+const char *g_crlf;         /* the harness copy of the newline string "\\r\\n" (see CAT_VERIF_GHOST_get_new_line_chars) */
 unsigned long long g_sat;   /* saturating Horner value of the digits consumed so far            */
 size_t g_ndig;              /* number of digits folded into g_sat                                */
 size_t g_len;               /* length of the collected argument text (index of its NUL)         */
@@ -16,6 +17,11 @@ size_t g_nesc;              /* string decoder: number of escape sequences decode
 size_t g_src;               /* string decoder: text position the witness byte g_j was decoded from */
 uint8_t g_oldbyte;          /* value of the witness data byte g_j before the call                */
 _Bool  g_esc;               /* string decoder: witness byte came from an escape sequence         */
+
+/* three phases of emitting one output unit (newline, payload, newline) */
+#define V_WS_BEFORE 0
+#define V_WS_MAIN   1
+#define V_WS_AFTER  2
 
 #define V_SAT_CAP      (1ULL << 40)
 #define V_SAT(x)       (((x) > V_SAT_CAP) ? V_SAT_CAP : (x))
